@@ -112,12 +112,12 @@ PROPS['C08'] = dict(
 )
 
 PROPS['C13'] = dict(
-    unit_modules=[], driver_modules=['drivers.c13'], level='other',
+    unit_modules=['contracts.c13_extract'], driver_modules=['drivers.c13'], level='other',
     level_text='tbd', level_note='tbd', assumptions=COMMON_ASSUMPTIONS,
 )
 
 PROPS['C12'] = dict(
-    unit_modules=[], driver_modules=['drivers.c12'], level='other',
+    unit_modules=['contracts.c12_persist'], driver_modules=['drivers.c12'], level='other',
     level_text='tbd', level_note='tbd', assumptions=COMMON_ASSUMPTIONS,
 )
 
